@@ -1,1 +1,4 @@
-import Cstl.Hash.Model
+import Cstl.Hash.PropsC03
+import Cstl.Hash.PropsC04
+import Cstl.Hash.PropsC19
+import Cstl.Hash.PropsC17
